@@ -56,8 +56,21 @@ class Buf:
         e = self.entry(f)
         keys = (K_CONTENTS, K_HASH, K_METADATA) if self.strategy == "serialized" else (K_CONTENTS, K_METADATA, K_MODIFIED)
         ref = bs.dict_get(self.B, f)
+        typed = [bs.dict_get(e, K_CONTENTS) != VNone, bs.dict_get(e, K_CONTENTS) != VAbsent]
+        if self.strategy == "serialized":
+            typed.append(bs.dict_get(e, K_HASH) != VNone)
+        else:
+            typed.append(smt.is_VBool(bs.dict_get(e, K_MODIFIED)))
         return z3.And(smt.is_VRef(ref), Val.addr(ref) > 1000, Val.addr(ref) != self.ba, Val.addr(ref) != self.ra,
-                      *[bs.dict_has(e, k) for k in keys])
+                      *([bs.dict_has(e, k) for k in keys] + typed))
+
+    def content_inv(self, f, ci):
+        """Inv.buffer (contents): the buffered copy is a document of the collection's kind that its class admits
+        (it is always the encoding / the container of some collection's admissible view)."""
+        L = self.logical(f)
+        kind = self.eng.R["classes"][ci.name]["kind"]
+        return z3.And(L != VNone, L != VAbsent, core.is_mapping(L) if kind == "dict" else core.is_sequence(L),
+                      core.allowed(self.eng, ci, L), bs.plain(L) == L)
 
     def modified(self, f):
         return Val.b(self.field(f, K_MODIFIED))
@@ -79,3 +92,115 @@ class Buf:
             return z3.If(self.has(f), json_loads(bytes_decode(self.field(f, K_CONTENTS))), self.st.sel("Res", f))
         c = self.field(f, K_CONTENTS)
         return z3.If(self.has(f), self.st.sel("CView", Val.addr(c)), self.st.sel("Res", f))
+
+
+def known_files(st, cname):
+    """Filenames the current state talks about: those of the known root objects of class cname + Skolems."""
+    out = []
+    for a, rec in st.objs.items():
+        if rec.tag.startswith("node") and rec.cls.name == cname and not isinstance(rec.fields.get("_root"), ObjV):
+            out.append(to_val(rec.fields["_filename"]))
+    out.extend(st.ghost.get("skolem_files", []))
+    return out
+
+
+class FlushBufferContract(Contract):
+    """FileBufferedCollection._flush_buffer(cls, force=False, retain_in_force=False).
+
+    ASSUMED at call sites (its body — a `while True` over popitem() of the registry — is covered by the bounded
+    buffer sweep, see evidence `bounded`).  Clauses, pointwise per file f (instantiated at the files of the known
+    objects and the Skolem files):
+      force:   afterwards the reported size is 0; (serialized) f has no entry, (shared) f's entry is unmodified;
+               a modified, non-conflicting copy was written:  Res'[f] == L(f)  (Python ==);
+               an unmodified copy was not written:  FS'[f] == FS[f];
+      raises BufferedError only if some flushed file was modified and conflicting."""
+    name = "FileBufferedCollection._flush_buffer"
+    params = ("cls", "force", "retain_in_force")
+    defaults = {"force": False, "retain_in_force": False}
+
+    def cases(self, cx):
+        def cname(c):
+            return c.b["cls"].ci.name
+
+        def forced(c):
+            f = c.b["force"]
+            if isinstance(f, Const):
+                return z3.BoolVal(bool(f.v))
+            return f.term if isinstance(f, Bv) else truthy(to_val(f))
+
+        def mod(c):
+            cn = cname(c)
+            locs = [("g", n) for n in ("Cell", "View", "CView", "Alloc", "Res", "Wr", "FS", "Meta", "FsTick") if n in c.pre.g]
+            locs += [("g", n) for n in c.pre.g if n.startswith("LockDom:")]
+            locs += [("static", cn, "_CURRENT_BUFFER_SIZE"), ("static", cn, "_buffered_collections")]
+            for a, rec in c.pre.objs.items():
+                if rec.tag.startswith("node") and "_data" in rec.fields:
+                    locs.append(("field", a, "_data"))
+            return locs
+
+        def per_file(c, raised):
+            cn = cname(c)
+            bp, bq = Buf(c.eng, c.pre, cn), Buf(c.eng, c.post, cn)
+            out = []
+            from props.buffers import stat_value
+            for f in known_files(c.pre, cn):
+                had, changed = bp.has(f), bp.changed(f)
+                conflict = z3.Not(pyeq(bp.field(f, K_METADATA), stat_value(c.pre, f)))
+                L = bp.logical(f)
+                if not raised:
+                    out.append(("C07:no-silent-overwrite", z3.Implies(forced(c), z3.Not(z3.And(had, changed, conflict)))))
+                out.append(("C15:forced-flush-loses-nothing",
+                            z3.Implies(z3.And(forced(c), had, changed, z3.Not(conflict)), pyeq(c.post.sel("Res", f), L))))
+                out.append(("C17:unmodified-not-written",
+                            z3.Implies(z3.And(had, z3.Not(changed)), z3.And(c.post.sel("FS", f) == c.pre.sel("FS", f),
+                                                                           c.post.sel("Res", f) == c.pre.sel("Res", f)))))
+                out.append(("C07:conflicting-not-written",
+                            z3.Implies(z3.And(had, changed, conflict), z3.And(c.post.sel("FS", f) == c.pre.sel("FS", f),
+                                                                            c.post.sel("Res", f) == c.pre.sel("Res", f)))))
+                out.append(("C05:absent-untouched", z3.Implies(z3.Not(had), z3.And(z3.Not(bq.has(f)),
+                                                                                  c.post.sel("FS", f) == c.pre.sel("FS", f),
+                                                                                  c.post.sel("Res", f) == c.pre.sel("Res", f)))))
+                if bp.strategy == "serialized":
+                    out.append(("C15:forced-entries-dropped", z3.Implies(forced(c), z3.Not(bq.has(f)))))
+                else:
+                    out.append(("C15:forced-entries-clean", z3.Implies(z3.And(forced(c), had),
+                                                                       z3.And(bq.has(f), z3.Not(bq.modified(f)),
+                                                                              bq.wellformed(f),
+                                                                              bq.field(f, K_CONTENTS) == bp.field(f, K_CONTENTS)))))
+            for t in c.pre.ghost.get("foreign_cells", []):
+                out.append(("frame:foreign-container", c.post.sel("Cell", t) == c.pre.sel("Cell", t)))
+            out.append(("C15:size-zero-after-forced-flush", z3.Implies(forced(c), bq.size == 0)))
+            out.append(("size-nonnegative", bq.size >= 0))
+            out.append(("alloc", c.post.g["Alloc"] >= c.pre.g["Alloc"]))
+            out.append(("registry-is-a-container", z3.BoolVal(True)))
+            out.append(("C10:lock-tables-only-grow", core.locks_monotone(c)))
+            return out
+
+        def post_ok(c):
+            if c.mode == "assume":
+                c.post.event("flush-buffer", cname(c), forced(c))
+                # the registry is rebound to a fresh dict object
+                cn = cname(c)
+                ra = smt.fresh("regaddr'", IntS)
+                c.post.assume(ra >= c.pre.g["Alloc"], ra < c.post.g["Alloc"])
+                c.post.statics[(cn, "_buffered_collections")] = Z(VRef(ra), "dict", {"static": (cn, "_buffered_collections")})
+            return per_file(c, False)
+
+        def post_err(c):
+            if c.mode == "assume":
+                c.post.event("flush-buffer-error", cname(c), forced(c))
+                cn = cname(c)
+                ra = smt.fresh("regaddr'", IntS)
+                c.post.assume(ra >= c.pre.g["Alloc"], ra < c.post.g["Alloc"])
+                c.post.statics[(cn, "_buffered_collections")] = Z(VRef(ra), "dict", {"static": (cn, "_buffered_collections")})
+                c.exc.attrs["files"] = Z(smt.fresh("issues"), None, {"plain": True})
+            return per_file(c, True)
+
+        return [
+            Case("flushed", "normal", modifies=mod, post=post_ok, result=lambda c: Const(None)),
+            Case("issues", "raise", modifies=mod, post=post_err, exc=("BufferedError",)),
+        ]
+
+
+def register(eng):
+    eng.contracts["FileBufferedCollection._flush_buffer"] = FlushBufferContract()
